@@ -282,6 +282,8 @@ CHECKS = {
         "parts": [
             {"name": "rapid", "pkg": "transport/mux", "run": "^TestVF_C10_Rapid$",
              "checks": {"quick": 2500, "thorough": 10000}, "shards": {"quick": 4, "thorough": 16}},
+            {"name": "tcp", "pkg": "transport/mux", "run": "^TestVF_C10_TCP$",
+             "checks": {"quick": 16, "thorough": 150}, "shards": {"quick": 4, "thorough": 16}},
         ],
     },
     "C11": {
